@@ -137,19 +137,17 @@ theorem klt_hypotheses {o : ScoreOps S} (ho : LawfulOps o) (p : Plan) {hits : Li
 
 /-! ### the whole request -/
 
-/-- when the fetch depth covers every match (and the sort is not the per-segment fast path, and
-scores are computed), what reaches post-processing is the full ranking: the code's hits, groups,
+/-- when the fetch depth covers every match (and the sort is not the per-segment fast path), what
+reaches post-processing is the full ranking: the code's hits, groups,
 inner hits, `total_groups` and cursor are the statement's -/
 theorem mech_eq_spec_all_fetched_partial (o : ScoreOps S) (r : Req S) (matched : List (Hit S))
-    (hsc : scoresComputed r = true) (hnf : isFast r.plan = false) (hresc : r.rescore = none)
+    (hnf : isFast r.plan = false) (hresc : r.rescore = none)
     (hall : (afterCursor (klt o r.plan) r.cursor matched).length ≤ topKOf r) :
     (search o r matched).hits = (Spec.search o r matched).hits ∧
     (search o r matched).totalGroups = (Spec.search o r matched).totalGroups ∧
     (search o r matched).next = (Spec.search o r matched).next ∧
     (search o r matched).total = (Spec.search o r matched).total := by
-  have hseen : matched.map (seen o r) = matched := by
-    have : seen o r = id := by funext h; simp [seen, hsc]
-    rw [this, List.map_id]
+  have hseen : matched.map (seen o r) = matched := map_seen o r matched
   have hfetch : fetch (klt o r.plan) false r.explain (topKOf r) r.nseg
       (afterCursor (klt o r.plan) r.cursor matched) =
       isort (klt o r.plan) (afterCursor (klt o r.plan) r.cursor matched) := by
@@ -214,7 +212,17 @@ covers the four matches -/
 example :
     let r := { reqInner with plan := [⟨.fld 0, false⟩, ⟨.score, true⟩], limit := 5 }
     (search intOps r matchedInner).hits = (Spec.search intOps r matchedInner).hits :=
-  (mech_eq_spec_all_fetched_partial intOps _ matchedInner (by decide) (by decide) rfl (by decide)).1
+  (mech_eq_spec_all_fetched_partial intOps _ matchedInner (by decide) rfl (by decide)).1
+
+/-- **legacy negative witness** (before /repo 8218789): main sort by a field, inner hits sorted
+by `_score`: scores were never computed, so the inner hits came in document order (docs 1, 2, 3)
+instead of score order -/
+theorem legacy_inner_score_sort_witness :
+    let r := { reqInner with plan := byN, limit := 5, collapse := some ⟨some (byScore, ⟨0, none⟩)⟩ }
+    let m := [mk 0 1 (some 0) (some 1), mk 1 2 (some 1) (some 1), mk 2 9 (some 2) (some 1), mk 3 5 (some 3) (some 1)]
+    ((legacyScoreSearch intOps r m).hits.map fun p => p.2.map (·.doc)) = [[1, 2, 3]] ∧
+    ((search intOps r m).hits.map fun p => p.2.map (·.doc)) = [[2, 3, 1]] ∧
+    ((Spec.search intOps r m).hits.map fun p => p.2.map (·.doc)) = [[2, 3, 1]] := by decide
 
 /-- **negative witness** (statement over all matching documents vs the code): limit 1 fetches
 2 hits; the group of the top hit has three more members, `inner_hits.size = 3` returns one -/
